@@ -39,6 +39,7 @@ type Container struct {
 	Name    string
 	Labels  map[string]string
 	Params  resourcetypes.Resources // engine params last applied (create or update)
+	Created resourcetypes.Resources // engine params given at creation
 	Running bool
 	Files   map[string]FileRec
 	Updates int
@@ -143,6 +144,7 @@ func (c *Container) clone() *Container {
 		n.Files[k] = v
 	}
 	n.Params = cloneResources(c.Params)
+	n.Created = cloneResources(c.Created)
 	return &n
 }
 
@@ -211,7 +213,7 @@ func (f *fakev) VirtualizationCreate(ctx context.Context, opts *enginetypes.Virt
 	w.seq++
 	// 64 hex digits, like a container id; deterministic per world
 	id := fmt.Sprintf("%s%060d", hex4(f.node), w.seq)
-	c := &Container{ID: id, Node: f.node, Name: opts.Name, Labels: map[string]string{}, Params: cloneResources(opts.EngineParams), Files: map[string]FileRec{}, Lambda: opts.Lambda, Stdin: opts.Stdin}
+	c := &Container{ID: id, Node: f.node, Name: opts.Name, Labels: map[string]string{}, Params: cloneResources(opts.EngineParams), Created: cloneResources(opts.EngineParams), Files: map[string]FileRec{}, Lambda: opts.Lambda, Stdin: opts.Stdin}
 	for k, v := range opts.Labels {
 		c.Labels[k] = v
 	}
